@@ -27,6 +27,12 @@ Invariants (all C12)
 - altered-spend-rejected-by-engine: the same altered (output key, script,
   control block) inside a script-path spend is refused by verify_input,
   whatever leaf version the altered control block names.
+- bad-internal-key-refused: an internal key whose x is no coordinate of a
+  point (or no field element) is refused by every producer with a library
+  exception, and by check_output_pubkey with one or with False.
+- out-of-range-tweak-refused: with the TapTweak digest drawn from
+  [n, 2^256) -- the hash is the seam; no input reaches that clause of BIP341
+  otherwise -- every producer and the checker refuse.
 Probe only (never asserted): a tree deeper than the limit being refused by
 the producer.
 """
@@ -223,6 +229,8 @@ def run(ctx: Ctx) -> None:
                         P12, "altered-spend-rejected-by-engine", verdict.startswith("refused"),
                         lambda: f"{target} altered on a depth-{depths[n]} script-path spend (leaf version {version:#x}): verify_input {verdict}", site=target,
                     )
+    if faulty:
+        _refusals(ctx, internal, d_int, tree, q, leaves)
     # beyond the limit: whatever the producer does is logged, never judged
     if ch.draw(8, "too-deep?") == 0:
         deep, _ = _caterpillar(ch, 129, pool)
@@ -231,6 +239,78 @@ def run(ctx: Ctx) -> None:
             ctx.probe("depth-129-answered")
         except LIB:
             ctx.probe("depth-129-refused")
+
+
+_FIELD = 2**256 - 2**32 - 977
+_ORDER = 0xFFFFFFFFFFFFFFFFFFFFFFFFFFFFFFFEBAAEDCE6AF48A03BBFD25E8CD0364141
+
+
+def _refused(ctx: Ctx, what: str, site: str, fn: Any, *, false_is_refusal: bool = False) -> None:
+    try:
+        answer: Any = fn()
+        verdict = "refused" if false_is_refusal and answer is False else f"answered {answer!r}"[:120]
+    except LIB as e:
+        verdict = "refused"
+        ctx.probe(f"refused-{site}:{type(e).__name__}")
+    except Exception as e:  # noqa: BLE001
+        verdict = f"non-library {type(e).__name__}: {e}"[:160]
+    ctx.check(P12, what, verdict == "refused", lambda: f"{site}: {verdict}", site=site)
+
+
+def _refusals(ctx: Ctx, internal: Any, d_int: int, tree: Any, q: bytes, leaves: list[Any]) -> None:
+    """The last clause: an internal key that is no point, a tweak that is no scalar."""
+    ch = ctx.ch
+    # (a) an x that is not the coordinate of a point, or not a field element at all
+    if ch.draw(2, "bad-internal?"):
+        while True:
+            x = ch.draw(_FIELD, "badx") if ch.draw(4, "badx.k") else _FIELD + ch.draw(2**32 + 977, "badx.over")
+            if x >= _FIELD or pow(x**3 + 7, (_FIELD - 1) // 2, _FIELD) != 1:
+                break
+        xb = x.to_bytes(32, "big")
+        # 32 bare octets would be read as a private key by the Key-taking entry points: the sec spellings name an x
+        spelled = ch.pick([b"\x02" + xb, b"\x03" + xb, (b"\x02" + xb).hex()], "badx.spelling")
+        ctx.fault("internal-key-not-a-point")
+        _refused(ctx, "bad-internal-key-refused", "output_pubkey", lambda: taproot.output_pubkey(spelled, tree))
+        _refused(ctx, "bad-internal-key-refused", "output_pubkey_from_merkle_root", lambda: taproot.output_pubkey_from_merkle_root(xb, ch.nbytes(32, "badx.root")))
+        _refused(ctx, "bad-internal-key-refused", "input_script_sig", lambda: taproot.input_script_sig(spelled, tree, 0))
+        cmds, control = taproot.input_script_sig(internal, tree, 0)
+        forged = control[:1] + xb + control[33:]
+        _refused(ctx, "bad-internal-key-refused", "check_output_pubkey", lambda: taproot.check_output_pubkey(q, taproot.serialize(cmds), forged), false_is_refusal=True)
+    # (b) BIP341: "fail if t >= n". No input reaches that in 2^128 tries, so the hash is the seam: for this call the
+    # TapTweak digest is drawn from [n, 2^256) -- a value SHA256 may legally return
+    if ch.draw(2, "big-tweak?"):
+        from btclib import hashes  # noqa: PLC0415
+
+        t = _ORDER + ch.draw(2**256 - _ORDER, "tweak.over") if ch.draw(3, "tweak.k") else ch.pick([_ORDER, 2**256 - 1, _ORDER + 1], "tweak.edge")
+        real = taproot.tagged_hash
+
+        def rigged(tag: bytes, m: bytes, *a: Any, **kw: Any) -> bytes:
+            return t.to_bytes(32, "big") if tag == b"TapTweak" else real(tag, m, *a, **kw)
+
+        undo = [st.patch_attr(taproot, "tagged_hash", rigged)]
+        if getattr(hashes, "tagged_hash", None) is real:
+            undo.append(st.patch_attr(hashes, "tagged_hash", rigged))
+        ctx.fault("tap-tweak-digest-not-below-order", hex(t)[:12])
+        try:
+            _refused(ctx, "out-of-range-tweak-refused", "output_pubkey", lambda: taproot.output_pubkey(internal, tree))
+            if internal is not None:
+                _refused(ctx, "out-of-range-tweak-refused", "output_prvkey", lambda: taproot.output_prvkey(d_int, tree))
+                _refused(ctx, "out-of-range-tweak-refused", "output_pubkey_from_merkle_root", lambda: taproot.output_pubkey_from_merkle_root(internal, bytes(32)))
+            cmds, control = _with(undo, real, lambda: taproot.input_script_sig(internal, tree, 0))
+            _refused(ctx, "out-of-range-tweak-refused", "check_output_pubkey", lambda: taproot.check_output_pubkey(q, taproot.serialize(cmds), control), false_is_refusal=True)
+        finally:
+            for u in reversed(undo):
+                u()
+
+
+def _with(undo: list[Any], real: Any, fn: Any) -> Any:
+    """fn() under the real hash (the honest spender's control block), the rigged one back afterwards."""
+    rigged = taproot.tagged_hash
+    taproot.tagged_hash = real  # type: ignore[assignment]
+    try:
+        return fn()
+    finally:
+        taproot.tagged_hash = rigged  # type: ignore[assignment]
 
 
 def _plans(tier: str) -> list[Plan]:
